@@ -109,6 +109,17 @@ claim("C16", "other",
       "to a shared const object through a cast is only caught where the function is under a contract with a frame.",
       "goto symbol-table scan + DFCC assigns-clause (frame) checking", "4/C16")
 
+claim("C20", "proof",
+      "ascon_bytes_to_hex and ascon_bytes_from_hex are enforced for EVERY input length by CBMC loop contracts (their "
+      "writes are in index form): the encoder against its closed form, the decoder against a shadow automaton that is "
+      "the specification of the accepted language (hex digits + six white-space characters, -1 otherwise / odd count / "
+      "no space) with every decoded byte and the frame out[0..outlen). Bounded cross-checks against an independent "
+      "reference codec and the round trip are labelled bounded.",
+      "The C++ helpers bytes_from_hex/bytes_to_hex and the ASCON_NO_STL byte_array class are NOT covered (CBMC's C++ front "
+      "end cannot parse them). The round trip for every length is the composition of the two contracts (meta-step); "
+      "lengths up to INT_MAX/2.",
+      "CBMC code contracts (DFCC): loop contracts with a ghost shadow automaton, enforced function contracts", "4/C20")
+
 NA_DEFAULT = {
     "C11": "secret-independence of control flow and addresses is a relational (2-safety) property of the shipped object code; a CBMC contract describes one execution of the C source and has no taint or relational mode (DESIGN section 6)",
     "C17": "compilability of C++ members is a compiler verdict, and CBMC's C++ front end rejects this repository's C++ (DESIGN 2.8, section 6)",
